@@ -147,7 +147,7 @@ var faultCatalogue = []faultSpec{
 }
 
 // Placements of a fault.
-var exprPlaces = []string{"assign-local", "assign-field", "compound-local", "assign-element", "if-cond", "elseif-cond", "for-cond", "for-init", "for-step", "return", "call-arg", "call-arg-assign", "method-arg", "conc-assign", "conc-call-arg", "stmt-call"}
+var exprPlaces = []string{"assign-local", "assign-field", "compound-local", "assign-element", "if-cond", "elseif-cond", "for-cond", "for-init", "for-step", "return", "call-arg", "call-arg-assign", "method-arg", "conc-assign", "conc-call-arg", "stmt-call", "conc-stmt-call"}
 var stmtPlaces = []string{"plain", "conc", "for-init", "for-step"}
 
 // Wrappers: enclosing statement kinds whose body holds the fault.
@@ -200,7 +200,7 @@ func (fp *FaultProgram) feasible() bool {
 		}
 		return true
 	}
-	if pl == "stmt-call" && s.Expr().K != dsl.KCall {
+	if (pl == "stmt-call" || pl == "conc-stmt-call") && s.Expr().K != dsl.KCall {
 		return false
 	}
 	return true
@@ -281,6 +281,8 @@ func (fp *FaultProgram) Build() (*dsl.Block, interface{}) {
 			core = append(core, &dsl.Stmt{K: dsl.SConc, Kids: []*dsl.Stmt{dsl.CallStmt(dsl.Call("ok", e)), dsl.Assign(dsl.Var("cz"), "=", i(2))}})
 		case "stmt-call":
 			core = append(core, dsl.CallStmt(e))
+		case "conc-stmt-call":
+			core = append(core, &dsl.Stmt{K: dsl.SConc, Kids: []*dsl.Stmt{dsl.Assign(dsl.Var("cz"), "=", i(2)), dsl.CallStmt(e), dsl.CallStmt(dsl.Call("tr", i(59)))}})
 		}
 	}
 	// innermost block
